@@ -10,6 +10,7 @@ _MODULES = [
     "c09_body_stream",
     "c10_limits",
     "c11_conditional",
+    "c16_views",
     "c18_locals",
     "c19_devserver",
 ]
